@@ -541,7 +541,9 @@ func (fr *Frame) invoke(recv Val, m *types.Func, args []Val, st *State, pos toke
 	}
 	var cands []cand
 	for _, ty := range fx.eng.tids.typs {
-		if !typeInModule(ty) {
+		if !typeInModule(ty) || (spec != nil && !spec.Residual) {
+			// an interface-method contract that is not marked residual
+			// speaks for every implementation (behavioural subtyping)
 			continue
 		}
 		sel := fx.eng.prog.MethodSets.MethodSet(ty).Lookup(m.Pkg(), m.Name())
